@@ -163,6 +163,19 @@ CHECKS.update({
     tech='TLA+ renaming law + reference semantics enumerated by TLC; renamed descriptions replayed into the implementation'),
 })
 
+CHECKS.update({
+ 'C12': dict(engine='bootstrap-trace', cat='model_checking', ref='DESIGN.md §7 C12',
+    text='Bootstrap.tla models the bootstrap history (generate / self-parse / install / generate again, comparisons of '
+         'generations 0 and 1 on descriptions) with the invariants FixedPoint, SelfHosting, SameLanguage; the history is '
+         'really executed in a scratch copy of the working tree (generation 1 compiled from grammar.txt, installed, '
+         'generation 2 regenerated in a fresh interpreter; every Grammar(...) string of tests/examples/README/docs, '
+         'grammar.txt, random rendered grammars and thousands of token-level corruptions parsed by both generations) and '
+         'the recorded events are validated by TLC against Trace_Bootstrap',
+    note='the TLA+ part is thin (history + invariants), the weight is the recorded execution; trees compared by repr, '
+         'rejections by class and index',
+    tech='TLA+ history model + trace validation of a recorded bootstrap execution'),
+})
+
 PENDING = {}
 
 
@@ -202,6 +215,8 @@ def main():
                                'and checked by TLC; trees and expected sequences replayed on real parsed objects'},
             {'name': 'modules-replay', 'path': 'harness/checks/c13.py', 'serves_properties': ['C13'],
              'kind_free_text': 'spec/Modules.tla flattens module chains into PegSem grammars; histories replayed'},
+            {'name': 'bootstrap-trace', 'path': 'harness/checks/c12.py', 'serves_properties': ['C12'],
+             'kind_free_text': 'recorded bootstrap history validated by TLC against spec/Trace_Bootstrap.tla'},
             {'name': 'report-replay', 'path': 'harness/checks/c09.py', 'serves_properties': ['C09'],
              'kind_free_text': 'spec/ExcerptVM.tla + spec/Report.tla model-checked; every state replayed as a real error'},
         ] + extra.get('engines', []),
